@@ -877,7 +877,15 @@ func (e *connectWireError) MarshalJSON() ([]byte, error) {
 	// A message that isn't valid UTF-8 can't be serialized; an error that loses
 	// a few bytes of its text is better than one that loses its code.
 	wire.Message = strings.ToValidUTF8(wire.Message, "\uFFFD")
-	return (&protoJSONCodec{}).Marshal(wire)
+	data, err := (&protoJSONCodec{}).Marshal(wire)
+	if err != nil && len(wire.Details) > 0 {
+		// A detail that can't be written as JSON (an Any whose type isn't linked
+		// into this binary, say) must not cost the error its code and message,
+		// or the response its shape.
+		wire.Details = nil
+		return (&protoJSONCodec{}).Marshal(wire)
+	}
+	return data, err
 }
 
 func (e *connectWireError) UnmarshalJSON(data []byte) error {
